@@ -9,7 +9,7 @@ cp $SRC/patch.diff $OUT/patch.diff; cp $SRC/demo.py $OUT/demo.py; cp $SRC/meta.j
 W=$(mktemp -d /tmp/vseed.XXXX); rmdir $W
 git -C /repo worktree add -q --detach $W HEAD || exit 2
 cp $OUT/demo.py $W/demo.py
-sed -i "s#/tmp/wt_[A-Za-z0-9_]*#$W#g" $W/demo.py
+sed -i "s#/tmp/wt[0-9]*_[A-Za-z0-9_]*#$W#g" $W/demo.py
 ( cd $W && PYTHONPATH=$W /venv/bin/python demo.py >/dev/null 2>&1 ); DEMO_CLEAN=$?
 ( cd $W && git apply $OUT/patch.diff ) || { echo "patch does not apply"; git -C /repo worktree remove --force $W; exit 2; }
 ( cd $W && PYTHONPATH=$W /venv/bin/python demo.py >$W/demo.out 2>&1 ); DEMO_MUT=$?
